@@ -350,6 +350,26 @@ theorem load_idempotent (fs fs1 : Fs) (r : Nat) (l : Loaded) (h : maybeLoad fs r
         simpa using this
       · simp at h
 
+/-- the same for `load_config` (which additionally generates a config when there is none) -/
+theorem loadConfig_idempotent (fs fs1 : Fs) (r : Nat) (l : Loaded) (h : loadConfig fs r = (fs1, .ok l)) :
+    loadConfig fs1 r = (fs1, .ok { l with warn := .none }) := by
+  unfold loadConfig at h
+  split at h
+  · simp at h
+  · next fs2 l2 hm =>
+    split at h
+    · next q hq =>
+      simp at h; obtain ⟨rfl, rfl⟩ := h
+      have := load_idempotent _ _ _ _ hm
+      simp [loadConfig, this, hq]
+    · simp only [drawId] at h
+      split at h
+      · next fs3 p hg =>
+        simp at h; obtain ⟨rfl, rfl⟩ := h
+        have := stable_after_generate _ _ _ _ _ _ (genId_valid _) hg .none
+        simp [loadConfig, this]
+      · simp at h
+
 /-- non-vacuity: the migrated, the copied and the not-found cases all load successfully -/
 example :
     (∃ fs1 l, maybeLoad (run Fs.empty [.mk 0, .legacy 0 9]).1 0 = (fs1, .ok l) ∧ l.warn = .migrated) ∧
